@@ -691,6 +691,69 @@ def _pair_verdict(fn: ast.AST, key: ast.AST, val: ast.AST, at: ast.AST) -> Optio
     return None
 
 
+def _records_shared(fn: ast.AST, holder: ast.AST) -> Optional[str]:
+    """*holder* is a mapping name -> record that is filled in place (``holder[name][c] = ..``).  None when every name is
+    known to have a record of its own; else what is wrong."""
+    if not isinstance(holder, ast.Name):
+        return f"signatures are written into the records of `{_u(holder)}` and it is not known that every parameter has a record of its own"
+    creators: List[ast.AST] = [d for d in _defs_of(fn, holder.id)]
+    per_key: List[ast.AST] = []
+    for n in walk_no_nested(fn):
+        if isinstance(n, ast.Assign):
+            for t in n.targets:
+                if isinstance(t, ast.Subscript) and isinstance(t.value, ast.Name) and t.value.id == holder.id:
+                    per_key.append(n.value)
+        elif isinstance(n, ast.Call) and isinstance(n.func, ast.Attribute) and n.func.attr == "setdefault" and isinstance(n.func.value, ast.Name) and n.func.value.id == holder.id and len(n.args) == 2:
+            per_key.append(n.args[1])
+    if not creators:
+        return f"signatures are written into the records of `{holder.id}`, which this function did not create: it is not known that every parameter has a record of its own"
+
+    def shared_value(v: Optional[ast.AST]) -> bool:
+        return v is not None and not (isinstance(v, ast.Constant)) and not (isinstance(v, ast.Tuple) and not v.elts)
+
+    for d in creators:
+        d = _peel(d) if d is not None else d
+        while isinstance(d, ast.Call) and call_attr(d) in ("dict", "OrderedDict") and len(d.args) == 1 and not d.keywords and not isinstance(d.func, ast.Attribute):
+            d = d.args[0]
+        if d is None:
+            return f"`{holder.id}` is bound in a way that is not understood"
+        if isinstance(d, ast.Call) and call_attr(d) == "fromkeys":
+            v = d.args[1] if len(d.args) > 1 else kwarg(d, "value")
+            if shared_value(v):
+                return f"`{_u(d)}` gives every parameter name the same record object `{_u(v)}`: each signature written into it replaces the previous one, so every parameter publishes the signature of the expression normalised last (`x - y` and `y - x` under one signature)"
+            continue
+        if isinstance(d, ast.DictComp):
+            ok, why = _is_fresh(None, d.value)
+            if not ok:
+                return f"the records of `{holder.id}` are {why} for every name - not known to be one object per parameter"
+            continue
+        if isinstance(d, ast.Dict):
+            if any(k is None for k in d.keys):
+                return f"`{holder.id}` starts from another mapping's records (`**`): not known to be one object per parameter"
+            vals = [_u(v) for v in d.values if not _is_fresh(None, v)[0]]
+            if len(vals) != len(set(vals)) or vals:
+                return f"the records of `{holder.id}` are not fresh objects per name"
+            continue
+        if isinstance(d, ast.Call) and call_attr(d) in ("defaultdict",) and d.args and isinstance(d.args[0], ast.Name) and d.args[0].id in ("dict", "OrderedDict"):
+            continue
+        if isinstance(d, ast.Call) and call_attr(d) in ("dict", "OrderedDict") and not d.args and not d.keywords:
+            continue
+        if isinstance(d, ast.Call) and call_attr(d) == "zip" or (isinstance(d, ast.BinOp) and isinstance(d.op, ast.Mult)):
+            return f"`{holder.id}` is built from `{_u(d)}`: its records are not known to be one object per parameter"
+        return f"`{holder.id}` is built by `{_u(d)}`: its records are not known to be one object per parameter"
+    for v in per_key:
+        ok, why = _is_fresh(fn, v)
+        # a record bound to a local that is re-created in every iteration is fresh; a name bound outside any loop is shared
+        if isinstance(v, ast.Name):
+            defs = _defs_of(fn, v.id)
+            in_loop = all(d is not None and any(isinstance(a, (ast.For, ast.While)) for a in ancestors(d)) for d in defs) and bool(defs)
+            ok = ok and in_loop
+            why = why or f"the single object `{v.id}` created outside the loop"
+        if not ok:
+            return f"records stored into `{holder.id}` are {why}: several parameter names may share one record, and each signature written into it replaces the previous one"
+    return None
+
+
 def boundary_rules(repo: Repo, R: Report, sig_name: str) -> None:
     from ..normal import nfunc
 
@@ -861,7 +924,28 @@ def boundary_rules(repo: Repo, R: Report, sig_name: str) -> None:
             tgts = p.targets if isinstance(p, ast.Assign) else [p.target]
             done = False
             for t in tgts:
-                if isinstance(t, ast.Subscript):
+                if isinstance(t, ast.Subscript) and isinstance(t.slice, ast.Constant) and isinstance(t.value, (ast.Subscript, ast.Call)):
+                    # M[name][c] = sig / M.setdefault(name, {..})[c] = sig: the signature is written into the record kept under
+                    # the parameter's name - the name must be the one bound with the expression, and the record must be
+                    # that name's own object (a record shared by several names ends up with the last signature written)
+                    inner = t.value
+                    holder = key = None
+                    if isinstance(inner, ast.Subscript) and not isinstance(inner.slice, ast.Slice):
+                        holder, key = inner.value, inner.slice
+                    elif isinstance(inner, ast.Call) and isinstance(inner.func, ast.Attribute) and inner.func.attr in ("setdefault", "get") and inner.args:
+                        holder, key = inner.func.value, inner.args[0]
+                    if holder is None:
+                        continue
+                    if isinstance(t.slice.value, str) and depth == 0:
+                        wrap_keys.add(t.slice.value)
+                    bad = _pair_verdict(fn, key, src, p)
+                    if bad is None:
+                        fresh_default = isinstance(inner, ast.Call) and inner.func.attr == "setdefault" and len(inner.args) == 2 and _is_fresh(None, inner.args[1])[0]
+                        if not fresh_default:
+                            bad = _records_shared(fn, holder)
+                    record(bad is None, rel, qn, p, bad or "")
+                    done = True
+                elif isinstance(t, ast.Subscript):
                     bad = _pair_verdict(fn, t.slice, src, p)
                     record(bad is None, rel, qn, p, bad or "")
                     done = True
@@ -943,6 +1027,9 @@ def boundary_rules(repo: Repo, R: Report, sig_name: str) -> None:
 
     snapshot_rule(repo, R, src_attrs)
     evaluator_rule(repo, R)
+    # the value side of the property only: checks that re-apply these rules for what a signature *identifies* (C04, C05) do not need it
+    if not getattr(R, "rule_prefix", ""):
+        exact_values_rule(repo, R)
 
 
 def _is_fresh(fn: Optional[ast.AST], e: Optional[ast.AST], depth: int = 0) -> Tuple[bool, str]:
@@ -1076,8 +1163,17 @@ def evaluator_rule(repo: Repo, R: Report) -> None:
                     sites.append((m, f, c))
     if not sites:
         raise AnalysisError("evaluation site (eval with an explicit globals table) not reachable from the sweep factory")
+    tables: List[Tuple[object, ast.AST, ast.Call, ast.AST]] = []
     for m, f, c in sites:
-        g = c.args[1]
+        # namespaces of the evaluation, in either position (names are looked up in both): the one that is a parameter of the
+        # evaluating function is the variable assignment of this call; every other one is a function table
+        spaces = list(c.args[1:3]) + [k.value for k in c.keywords if k.arg in ("globals", "locals")]
+        own = [g for g in spaces if not (isinstance(g, ast.Name) and g.id in _params(f) and not _defs_of(f, g.id))
+               and not (isinstance(g, ast.Constant) and g.value is None)]
+        if not own:
+            raise AnalysisError(f"{m.rel}:{qualname_of(f)}: `{norm(c)}` evaluates without a function table of its own (shape not understood)")
+        tables.extend((m, f, c, g) for g in own)
+    for m, f, c, g in tables:
         cls = next((a for a in ancestors(f) if isinstance(a, ast.ClassDef)), None)
         mod_level = {t.id for st in m.tree.body if isinstance(st, (ast.Assign, ast.AnnAssign)) for t in (st.targets if isinstance(st, ast.Assign) else [st.target]) if isinstance(t, ast.Name)}
         cls_level = set()
@@ -1184,3 +1280,312 @@ def mutation_sites_of(fn: ast.AST, aliases: Set[str], shared_text: str):
                 yield n
             elif isinstance(n.op, ast.BitOr) and hits(n.target):
                 yield n
+
+
+# =============================================================================================================
+# D4 exact values: a declared sweep value reaches the evaluation as the number that was written
+# =============================================================================================================
+
+# conversions into a number type whose + and * are not associative (binary / decimal floating point)
+INEXACT_CONV = {"float", "complex", "Decimal", "float64", "float32", "float16", "float128", "longdouble", "double", "single", "half", "float_", "fsum"}
+# conversions of a whole collection into one machine type (a list of ints and floats becomes all-float)
+ARRAY_CONV = {"asarray", "array", "asfarray", "asanyarray", "fromiter", "astype", "ascontiguousarray", "full", "Series"}
+_COPY = {"list", "tuple", "cast", "sorted", "reversed", "iter", "enumerate", "copy", "deepcopy"}
+_VIEW = {"get", "items", "values", "keys", "pop", "copy"}
+_NOT_VALUES: Set[str] = set()  # fields of the spec classes that are not listed as values: filled by exact_values_rule
+_THROUGH: Set[str] = set()  # functions of the value path (they hand declared values on): filled by exact_values_rule
+
+
+def _binder_iter(fn: ast.AST, name: str, at: Optional[ast.AST] = None) -> List[ast.AST]:
+    """Iterables whose elements *name* is bound to (for loops and comprehension clauses of *fn*)."""
+    out: List[ast.AST] = []
+    for n in ast.walk(fn):
+        if isinstance(n, (ast.For, ast.comprehension)):
+            if any(isinstance(x, ast.Name) and x.id == name for x in ast.walk(n.target)):
+                out.append(n.iter)
+    return out
+
+
+def _declared(fn: ast.AST, e: Optional[ast.AST], depth: int = 0) -> bool:
+    """True when *e* is (a copy / an element / a field of) something *fn* was given - a value that was declared, not computed."""
+    if e is None or depth > 10:
+        return False
+    if isinstance(e, ast.Name):
+        defs = _defs_of(fn, e.id)
+        its = _binder_iter(fn, e.id)
+        # may-analysis: one declared source is enough (a parameter that is re-bound on some path still carries the given value on others)
+        if e.id in _params(fn):
+            return True
+        return any(d is not None and _declared(fn, d, depth + 1) for d in defs) or any(_declared(fn, i, depth + 1) for i in its)
+    if isinstance(e, ast.Attribute) and e.attr in _NOT_VALUES and isinstance(e.value, ast.Name):
+        return False  # a field the values are computed from (bounds, step counts, keys), not a value of the variable
+    if isinstance(e, (ast.Attribute, ast.Subscript, ast.Starred)):
+        return _declared(fn, e.value, depth + 1)
+    if isinstance(e, ast.BoolOp):
+        return any(_declared(fn, v, depth + 1) for v in e.values)
+    if isinstance(e, ast.IfExp):
+        return _declared(fn, e.body, depth + 1) or _declared(fn, e.orelse, depth + 1)
+    if isinstance(e, (ast.List, ast.Tuple)):
+        return bool(e.elts) and all(_declared(fn, x, depth + 1) for x in e.elts)
+    if isinstance(e, (ast.ListComp, ast.GeneratorExp)):
+        return len(e.generators) == 1 and _declared(fn, e.generators[0].iter, depth + 1)
+    if isinstance(e, ast.Call):
+        nm = call_attr(e)
+        if isinstance(e.func, ast.Attribute) and nm in _VIEW:
+            return _declared(fn, e.func.value, depth + 1)
+        if nm in _COPY and e.args:
+            return _declared(fn, e.args[-1] if nm == "cast" else e.args[0], depth + 1)
+        if nm == "zip":
+            return any(_declared(fn, a, depth + 1) for a in e.args)
+        if nm in _THROUGH:
+            return True
+    return False
+
+
+def _conv_name(f: ast.AST) -> Optional[str]:
+    d = dotted_name(f)
+    return d.split(".")[-1] if d else None
+
+
+def _inexact_conversions(fn: ast.AST) -> List[Tuple[ast.AST, ast.AST, str]]:
+    """(expression, converted collection, conversion) for every element-wise conversion of a collection in *fn*."""
+    out: List[Tuple[ast.AST, ast.AST, str]] = []
+    for n in ast.walk(fn):
+        if isinstance(n, (ast.ListComp, ast.GeneratorExp, ast.SetComp, ast.DictComp)):
+            elts = [n.value] if isinstance(n, ast.DictComp) else [n.elt]
+            for g in n.generators:
+                tnames = {x.id for x in ast.walk(g.target) if isinstance(x, ast.Name)}
+                for el in elts:
+                    for c in ast.walk(el):
+                        if isinstance(c, ast.Call) and _conv_name(c.func) in INEXACT_CONV and c.args and tnames & {x.id for a in c.args for x in ast.walk(a) if isinstance(x, ast.Name)}:
+                            coll = g.iter
+                            # {v: conv(M[v][i]) for v in M}: what is converted is an element of M
+                            for a in c.args:
+                                for s in ast.walk(a):
+                                    if isinstance(s, ast.Subscript) and not (isinstance(s.value, ast.Name) and s.value.id in tnames):
+                                        coll = s.value
+                                        break
+                            out.append((n, coll, f"{_conv_name(c.func)}()"))
+        elif isinstance(n, ast.Call):
+            nm = call_attr(n)
+            if nm == "map" and len(n.args) >= 2 and _conv_name(n.args[0]) in INEXACT_CONV:
+                out.append((n, n.args[1], f"{_conv_name(n.args[0])}()"))
+            elif nm in ARRAY_CONV and isinstance(n.func, ast.Attribute):
+                coll = n.func.value if nm == "astype" else (n.args[0] if n.args else None)
+                if coll is not None:
+                    out.append((n, coll, f"{_u(n.func)}()"))
+        elif isinstance(n, (ast.List, ast.Tuple)) and len(n.elts) >= 2 and isinstance(getattr(n, "ctx", None), ast.Load):
+            bases = []
+            for x in n.elts:
+                if isinstance(x, ast.Call) and _conv_name(x.func) in INEXACT_CONV and len(x.args) == 1 and isinstance(x.args[0], ast.Subscript):
+                    bases.append(x.args[0].value)
+            if len(bases) == len(n.elts) and len({_u(b) for b in bases}) == 1:
+                out.append((n, bases[0], f"{_conv_name(n.elts[0].func)}()"))
+    return out
+
+
+def _flows_into(fn: ast.AST, src: ast.AST, sinks: List[ast.AST]) -> Optional[ast.AST]:
+    """The first of *sinks* (expressions) that the value of *src* reaches through local names of *fn*."""
+    inside = {id(x) for x in ast.walk(src)}
+    tainted: Set[str] = set()
+    for _ in range(6):
+        grew = False
+        for n in ast.walk(fn):
+            val, tgts = None, []
+            if isinstance(n, ast.Assign):
+                val, tgts = n.value, n.targets
+            elif isinstance(n, (ast.AnnAssign, ast.AugAssign, ast.NamedExpr)) and n.value is not None:
+                val, tgts = n.value, [n.target]
+            elif isinstance(n, (ast.For, ast.comprehension)):
+                val, tgts = n.iter, [n.target]
+            elif isinstance(n, ast.Call) and isinstance(n.func, ast.Attribute) and n.func.attr in ("append", "extend", "insert", "update", "setdefault", "add") and n.args:
+                val, tgts = ast.Tuple(elts=list(n.args), ctx=ast.Load()), [n.func.value]
+            if val is None:
+                continue
+            hit = any(id(x) in inside or (isinstance(x, ast.Name) and x.id in tainted) for x in ast.walk(val))
+            if hit:
+                for t in tgts:
+                    root = t
+                    while isinstance(root, (ast.Subscript, ast.Attribute)):
+                        root = root.value
+                    for x in ([root] if isinstance(root, ast.Name) else [y for y in ast.walk(t) if isinstance(y, ast.Name)]):
+                        if x.id not in tainted and x.id not in ("self", "cls"):
+                            tainted.add(x.id)
+                            grew = True
+        if not grew:
+            break
+    for s in sinks:
+        if any(id(x) in inside or (isinstance(x, ast.Name) and x.id in tainted) for x in ast.walk(s)):
+            return s
+    return None
+
+
+def exact_values_rule(repo: Repo, R: Report) -> None:
+    from ..normal import nfunc
+
+    r = R.rule("C12-D4-exact-values", "a declared sweep value reaches the evaluation of the expressions as the number that was written: where the package turns a variable declaration into a spec object, and where it lists the values of a spec object for the sweep, a declared collection of values is not converted element by element into floating point (nor coerced into one machine type) - integers stay integers, so + and * stay associative on them", 2)
+    if not MAKERS:
+        raise AnalysisError("sweep class makers not found")
+    consulted_before = set(repo.consulted)
+    reach = repo.call_graph_closure([(m, f) for m, f in MAKERS], by_name_fallback=True)
+    repo.consulted.clear()
+    repo.consulted.update(consulted_before)
+
+    def nform(m, f):
+        try:
+            return nfunc(repo, m.rel, qualname_of(f), loops=True, ifexp=False)
+        except AnalysisError:
+            raise
+        except Exception:
+            return f
+
+    # the functions that list the values of each variable: they tell the spec classes apart, element by element of a mapping
+    spec_classes: Dict[str, Tuple[object, ast.ClassDef]] = {}
+    listers: List[Tuple[object, ast.AST]] = []
+    for m, f0, _p in reach.values():
+        if not isinstance(f0, FuncNode) or m.rel.startswith("semantiva/examples/"):
+            continue
+        per_var: Dict[str, Dict[str, Tuple[object, ast.ClassDef]]] = {}
+        for n in walk_no_nested(f0):
+            if isinstance(n, ast.Call) and call_attr(n) == "isinstance" and len(n.args) == 2 and isinstance(n.args[0], ast.Name):
+                x = n.args[0].id
+                its = _binder_iter(f0, x)
+                if not any(isinstance(_peel(i), ast.Call) and call_attr(_peel(i)) in ("items", "values") for i in its):
+                    continue
+                for cexpr in _class_exprs(n.args[1]):
+                    rr = repo.resolve_name(m, cexpr, n)
+                    if rr is not None and isinstance(rr[1], ast.ClassDef):
+                        per_var.setdefault(x, {})[rr[1].name] = rr
+        for x, found in per_var.items():
+            if len(found) >= 2:
+                spec_classes.update(found)
+                if not any(f0 is y for _m, y in listers):
+                    listers.append((m, f0))
+    if not listers:
+        raise AnalysisError("the function that lists the values of the sweep variables (dispatch over the spec classes) was not found in the call graph of the sweep factory")
+
+    # which fields of which spec class are listed as they are (the explicit values), as opposed to fields a sequence is computed
+    # from (range bounds are floats by declaration) or keys that are looked up
+    def class_fields(c: ast.ClassDef) -> List[str]:
+        out = [st.target.id for st in c.body if isinstance(st, ast.AnnAssign) and isinstance(st.target, ast.Name) and "ClassVar" not in _u(st.annotation)]
+        init = next((st for st in c.body if isinstance(st, FuncNode) and st.name == "__init__"), None)
+        if init is not None:
+            out = [a.arg for a in init.args.args[1:] + init.args.kwonlyargs]
+        return out
+
+    explicit: Dict[str, Set[str]] = {}
+    for m, f0 in listers:
+        for n in ast.walk(f0):
+            if not (isinstance(n, ast.Attribute) and isinstance(n.value, ast.Name) and isinstance(n.ctx, ast.Load)):
+                continue
+            x = n.value.id
+            cur, p = n, parent(n)
+            while isinstance(p, ast.Call) and call_attr(p) in _COPY and not isinstance(p.func, ast.Attribute) and any(a is cur for a in p.args):
+                cur, p = p, parent(p)
+            value_use = isinstance(p, (ast.Assign, ast.AnnAssign, ast.Return, ast.Yield, ast.comprehension, ast.For)) and not (isinstance(p, (ast.comprehension, ast.For)) and p.iter is not cur) \
+                or (isinstance(p, ast.Call) and call_attr(p) in ({"map", "append", "extend"} | ARRAY_CONV) and any(a is cur for a in p.args))
+            if not value_use:
+                continue
+            guarded: Set[str] = set()
+            for a in ancestors(n):
+                if isinstance(a, (ast.If, ast.IfExp)):
+                    body = a.body if isinstance(a.body, list) else [a.body]
+                    if any(n is y for b in body for y in ast.walk(b)):
+                        for t in ast.walk(a.test):
+                            if isinstance(t, ast.Call) and call_attr(t) == "isinstance" and len(t.args) == 2 and isinstance(t.args[0], ast.Name) and t.args[0].id == x:
+                                guarded |= {dotted_name(ce).split(".")[-1] for ce in _class_exprs(t.args[1]) if dotted_name(ce)}
+            for cname, (_cm, cnode) in spec_classes.items():
+                if n.attr in class_fields(cnode) and (not guarded or cname in guarded):
+                    explicit.setdefault(cname, set()).add(n.attr)
+    _NOT_VALUES.clear()
+    _NOT_VALUES.update(a for cname, (_cm, cnode) in spec_classes.items() for a in class_fields(cnode) if a not in explicit.get(cname, ()))
+    _NOT_VALUES.difference_update(a for fs in explicit.values() for a in fs)
+    if not explicit:
+        raise AnalysisError("no spec class whose field is listed as the values of the variable was recognised")
+
+    what = "integer values of `{coll}` are converted with {conv} before the expressions are evaluated: on floating-point numbers + and * are not associative, so two expressions with the same signature (`a + b + c`, `a + (b + c)`) deliver different values at integer points beyond 2**53"
+    for m, f0 in listers:
+        repo.module(m.rel)
+        nf = nform(m, f0)
+        sinks: List[ast.AST] = []
+        for n in walk_no_nested(nf):
+            if isinstance(n, (ast.Return, ast.Yield, ast.YieldFrom)) and n.value is not None:
+                sinks.append(n.value)
+            elif isinstance(n, ast.Assign) and any(isinstance(t, ast.Subscript) for t in n.targets):
+                sinks.append(n.value)
+        bad = None
+        for expr, coll, conv in _inexact_conversions(nf):
+            if _declared(nf, coll) and _flows_into(nf, expr, sinks) is not None:
+                bad = (expr, coll, conv)
+                break
+        R.check(bad is None, r, m.rel, qualname_of(f0), norm(stmt_of(bad[0])) if bad else "values of every spec listed as declared",
+                what.format(coll=_u(bad[1]), conv=bad[2]) if bad else "", bad[0].lineno if bad else f0.lineno)
+    # the functions that use the listed values (they call a lister) and the step generators they hand them to
+    _THROUGH.clear()
+    _THROUGH.update(f0.name for _m, f0 in listers)
+    users: List[Tuple[object, ast.AST]] = []
+    steppers: List[Tuple[object, ast.AST]] = []
+    for m, f0, _p in reach.values():
+        if not isinstance(f0, FuncNode) or any(f0 is y for _m, y in listers):
+            continue
+        got: Set[str] = set()
+        for n in walk_no_nested(f0):
+            if isinstance(n, (ast.Assign, ast.AnnAssign)) and isinstance(n.value, ast.Call) and call_attr(n.value) in {y.name for _m, y in listers}:
+                for t in (n.targets if isinstance(n, ast.Assign) else [n.target]):
+                    got |= {x.id for x in ast.walk(t) if isinstance(x, ast.Name)}
+        if not got:
+            continue
+        users.append((m, f0))
+        for c in calls_in(f0):
+            if any(isinstance(a, ast.Name) and a.id in got for a in list(c.args) + [k.value for k in c.keywords]):
+                for tm, tn in repo.resolve_call(m, c):
+                    if isinstance(tn, FuncNode) and not any(tn is y for _m, y in steppers + listers):
+                        steppers.append((tm, tn))
+    _THROUGH.update(f0.name for _m, f0 in steppers)
+    for m, f0 in steppers + users:
+        repo.module(m.rel)
+        nf = nform(m, f0)
+        sinks = []
+        for n in walk_no_nested(nf):
+            if isinstance(n, (ast.Return, ast.Yield, ast.YieldFrom)) and n.value is not None:
+                sinks.append(n.value)
+            elif isinstance(n, ast.Call):
+                sinks.extend(k.value for k in n.keywords if k.arg is None)
+        bad = None
+        for expr, coll, conv in _inexact_conversions(nf):
+            if _declared(nf, coll) and _flows_into(nf, expr, sinks) is not None:
+                bad = (expr, coll, conv)
+                break
+        R.check(bad is None, r, m.rel, qualname_of(f0), norm(stmt_of(bad[0])) if bad else "listed values handed on as they are",
+                what.format(coll=_u(bad[1]), conv=bad[2]) if bad else "", bad[0].lineno if bad else f0.lineno)
+    # where spec objects are built from a declaration
+    n_sites = 0
+    for m, qn, f in repo.all_functions():
+        if m.rel.startswith("semantiva/examples/"):
+            continue
+        raw_sites = [c for c in calls_in(f) if call_attr(c) in spec_classes and not isinstance(parent(c), ast.Attribute)]
+        if not raw_sites:
+            continue
+        ok_sites = []
+        for c in raw_sites:
+            rr = repo.resolve_name(m, c.func, c)
+            if rr is not None and isinstance(rr[1], ast.ClassDef) and any(rr[1] is sc for _sm, sc in spec_classes.values()):
+                ok_sites.append(c)
+        if not ok_sites:
+            continue
+        repo.module(m.rel)
+        nf = nform(m, f)
+        sites = [c for c in calls_in(nf) if call_attr(c) in spec_classes]
+        convs = [(e, coll, conv) for e, coll, conv in _inexact_conversions(nf) if _declared(nf, coll)]
+        for c in sites:
+            cname = call_attr(c)
+            fields = class_fields(spec_classes[cname][1])
+            args = [a for i, a in enumerate(c.args) if isinstance(a, ast.Starred) or (i < len(fields) and fields[i] in explicit.get(cname, ()))]
+            args += [k.value for k in c.keywords if k.arg is None or k.arg in explicit.get(cname, ())]
+            if not explicit.get(cname):
+                continue
+            n_sites += 1
+            bad = next(((e, coll, conv) for e, coll, conv in convs if _flows_into(nf, e, args) is not None), None)
+            R.check(bad is None, r, m.rel, qn, norm(c), what.format(coll=_u(bad[1]), conv=bad[2]) if bad else "", c.lineno)
+    if not n_sites:
+        raise AnalysisError("no place where the package builds a sweep-variable spec object from a declaration was found")
